@@ -37,11 +37,16 @@ package ucfg
 //@ ghost func parsesInt(s string) bool
 //@ ghost func intOf(s string) int64 inverse ghost_itoa guard parsesInt
 
+//@ pred isFieldOf(f field, in string, maxIdx int64, numKeys bool) := ((typeof(f) == idxField) == (!numKeys && parsesInt(in) && 0 <= intOf(in) && intOf(in) <= maxIdx)) && (typeof(f) == idxField ==> f.(idxField).i == intOf(in)) && (typeof(f) != idxField ==> typeof(f) == namedField && f.(namedField).name == in)
+
 //@ func parseField
 //@ props C20 C12
+//@ pure
 //@ ensures [index_iff] (typeof(result) == idxField) == (!enableNumKeys && parsesInt(in) && 0 <= intOf(in) && intOf(in) <= maxIdx)
 //@ ensures [index_val] typeof(result) == idxField ==> result.(idxField).i == intOf(in)
 //@ ensures [name] typeof(result) != idxField ==> typeof(result) == namedField && result.(namedField).name == in
+//@ ensures [spec] isFieldOf(result, in, maxIdx, enableNumKeys)
+//@ ensures [nonnil] result != nil
 
 //@ func (*fields).delAt
 //@ props C12
@@ -304,24 +309,43 @@ package ucfg
 
 //@ func parsePath
 //@ props C12 C20
+//@ pure
 //@ ensures [nonempty] len(result.fields) >= 1
 //@ ensures [sep] result.sep == sep
 //@ ensures [single] sep == "" ==> len(result.fields) == 1
+//@ ensures [single_field] sep == "" ==> isFieldOf(result.fields[0], in, maxIdx, enableNumKeys)
 //@ ensures [count] sep != "" && !allowEscapePath ==> len(result.fields) == splitLen(in, sep)
+//@ ensures [multi_field] sep != "" && !allowEscapePath ==> forall j int :: 0 <= j && j < len(result.fields) ==> isFieldOf(result.fields[j], splitAt(in, sep, j), maxIdx, enableNumKeys && splitLen(in, sep) <= 1)
+//@ ensures [nonnil] forall j int :: 0 <= j && j < len(result.fields) ==> result.fields[j] != nil
 //@ loop 1 invariant len(fields) == rangeindex + 1 && -1 <= rangeindex && rangeindex < len(elems)
 //@ loop 1 invariant len(elems) == splitLen(in, sep) && len(elems) >= 1
+//@ loop 1 invariant enableNumKeys == (entry(enableNumKeys) && len(elems) <= 1)
+//@ loop 1 invariant forall j int :: 0 <= j && j < len(elems) ==> elems[j] == splitAt(in, sep, j)
+//@ loop 1 invariant forall j int :: 0 <= j && j < len(fields) ==> fields[j] != nil && isFieldOf(fields[j], splitAt(in, sep, j), maxIdx, enableNumKeys)
 //@ loop 1 decreases len(elems) - rangeindex
 
 //@ func parsePathWithOpts
 //@ props C12 C20
+//@ pure
 //@ requires opts != nil
 //@ ensures [nonempty] len(result.fields) >= 1
+//@ ensures [nonnil] forall j int :: 0 <= j && j < len(result.fields) ==> result.fields[j] != nil
+//@ ensures [sep] result.sep == opts.pathSep
+//@ ensures [single_field] opts.pathSep == "" ==> len(result.fields) == 1 && isFieldOf(result.fields[0], in, opts.maxIdx, opts.enableNumKeys)
+//@ ensures [multi_field] opts.pathSep != "" && !opts.escapePath ==> len(result.fields) == splitLen(in, opts.pathSep) && forall j int :: 0 <= j && j < len(result.fields) ==> isFieldOf(result.fields[j], splitAt(in, opts.pathSep, j), opts.maxIdx, opts.enableNumKeys && splitLen(in, opts.pathSep) <= 1)
 
 //@ func parsePathIdx
 //@ props C12 C20
+//@ pure
 //@ requires opts != nil
 //@ ensures [nonempty] len(result.fields) >= 1
+//@ ensures [nonnil] forall j int :: 0 <= j && j < len(result.fields) ==> result.fields[j] != nil
 //@ ensures [onlyidx] in == "" ==> len(result.fields) == 1 && typeof(result.fields[0]) == idxField && result.fields[0].(idxField).i == idx
+//@ ensures [noidx_single] in != "" && idx < 0 && opts.pathSep == "" ==> len(result.fields) == 1 && isFieldOf(result.fields[0], in, opts.maxIdx, opts.enableNumKeys)
+//@ ensures [noidx_multi] in != "" && idx < 0 && opts.pathSep != "" && !opts.escapePath ==> len(result.fields) == splitLen(in, opts.pathSep) && forall j int :: 0 <= j && j < len(result.fields) ==> isFieldOf(result.fields[j], splitAt(in, opts.pathSep, j), opts.maxIdx, opts.enableNumKeys && splitLen(in, opts.pathSep) <= 1)
+//@ ensures [idx_last] in != "" && idx >= 0 ==> len(result.fields) >= 2 && typeof(result.fields[len(result.fields) - 1]) == idxField && result.fields[len(result.fields) - 1].(idxField).i == idx
+//@ ensures [idx_single] in != "" && idx >= 0 && opts.pathSep == "" ==> len(result.fields) == 2 && isFieldOf(result.fields[0], in, opts.maxIdx, opts.enableNumKeys)
+//@ ensures [idx_multi] in != "" && idx >= 0 && opts.pathSep != "" && !opts.escapePath ==> len(result.fields) == splitLen(in, opts.pathSep) + 1 && forall j int :: 0 <= j && j < len(result.fields) - 1 ==> isFieldOf(result.fields[j], splitAt(in, opts.pathSep, j), opts.maxIdx, opts.enableNumKeys && splitLen(in, opts.pathSep) <= 1)
 
 //@ func iface:field.GetValue :: self, opt, elem -> r, err
 //@ pure
@@ -345,3 +369,18 @@ package ucfg
 //@ loop 1 invariant forall j int :: 0 <= j && j < len(fields) ==> fields[j] != nil
 //@ loop 1 invariant cur != nil
 //@ loop 1 decreases len(fields)
+
+//@ iface value.SetContext :: self, ctx
+
+//@ func raiseIndexOutOfBounds
+//@ trusted
+//@ pure
+//@ ensures result != nil
+
+//@ func (idxField).SetValue
+//@ props C07 C12 C20
+//@ requires opts != nil && elem != nil && v != nil
+//@ requires opts.maxIdx < 9223372036854775807
+//@ requires typeof(elem) == cfgSub ==> elem.(cfgSub).c != nil && elem.(cfgSub).c.fields != nil
+//@ ensures [bound] result == nil ==> 0 <= i.i && i.i <= old(opts.maxIdx)
+//@ ensures [reject] !(0 <= i.i && i.i <= old(opts.maxIdx)) ==> result != nil
